@@ -236,7 +236,10 @@ def run(R, env):
             memb = lambda t: membership(prog, t, lambda c_: True, lambda e_: True)
             dupw = ec.assume((lambda t: t[0] == "call" and t[1] == "std::collections::HashSet::contains", True), (lambda t: t[0] == "call" and t[1] == "std::collections::HashSet::insert", False), (None, lambda t: memb(t))).settle()
             from engine.analysis import inline_walk as _iw3
-            n = sum(1 for c3, p3 in _iw3(prog, ec, 1) for _, atom in c3.atoms() for s_ in subterms(atom[1]) if (s_[0] == "call" and s_[1] in ("std::collections::HashSet::contains", "std::collections::HashSet::insert")) or memb(s_) is not None)
+            is_dup_test = lambda s_: (s_[0] == "call" and s_[1] in ("std::collections::HashSet::contains", "std::collections::HashSet::insert")) or memb(s_) is not None
+            n = sum(1 for c3, p3 in _iw3(prog, ec, 1) for _, atom in c3.atoms() for s_ in subterms(atom[1]) if is_dup_test(s_))
+            # (the test may be the value of the tail expression: `seen.insert(a).then_some(addr).ok_or_else(..)`)
+            n += sum(1 for c3, p3 in _iw3(prog, ec, 1) for e3 in exits(c3) if e3.get("term") is not None for s_ in subterms(e3["term"]) if is_dup_test(s_))
             pushes = [bi_ for bi_, t_, a_ in call_sites(dupw, lambda nm: nm == "std::vec::Vec::push")]
             accepted = bool(pushes) or (ec.body.kind == "closure" and bool(success_exits(dupw)))
             R.ob("C14.R2", "addresses:duplicate-test-precedes-acceptance", n >= 1 and not accepted, "a duplicate address can be accepted into the validated list", fn=k)
